@@ -33,6 +33,9 @@ ASSUMPTIONS = [
     "reject a cursor beyond the buffer)",
     "after a typed operator<< / operator>> has thrown in the middle of a value, how much of that value was transferred is not "
     "observed (the property does not determine it)",
+    "typed reads are issued in the order and with the types of the writes, on complete or truncated streams (the property's "
+    "quantifier); a read with another type sees garbage length prefixes, for which the library throws std::length_error / "
+    "std::bad_alloc out of the container's resize instead of std::runtime_error - not generated, not judged",
 ]
 EXPLAIN = ("observations (bytes produced, values read back, end()/cursor/available()/capacity(), exception or not, ASan/UBSan "
            "report) of the real streams differ from the Lean model for which decode_encode, reader_roundtrip, size_calc_exact, "
